@@ -642,6 +642,25 @@ class C03(Machine):
         eb = sorted(b._split_bitmask for b in clone.bipartition_encoding)
         if ea != eb:
             return ("encoding_list", "tree.bipartition_encoding holds splits %s, a fresh encoding %s" % (ea, eb))
+        # the look-up tables derived from the encoding (built on demand and cached): every value is an edge of the tree, and an
+        # edge whose split no other edge shares is found under its split.  Reading them here also fills the caches, so that a
+        # later operation that forgets to reset them is seen.
+        try:
+            sbm = tree.split_bitmask_edge_map
+        except Exception as e:
+            return ("edge_map", "split_bitmask_edge_map cannot be built: %s" % type(e).__name__)
+        mine = set(id(nd._edge) for nd in nodes)
+        for e in sbm.values():
+            if id(e) not in mine:
+                return ("edge_map", "split_bitmask_edge_map holds an edge that is not part of the tree")
+        count = {}
+        for nd in nodes:
+            k = nd._edge._bipartition._split_bitmask
+            count[k] = count.get(k, 0) + 1
+        for nd in nodes:
+            k = nd._edge._bipartition._split_bitmask
+            if count[k] == 1 and sbm.get(k) is not nd._edge:
+                return ("edge_map", "split_bitmask_edge_map does not lead from split %s to the edge that carries it" % bin(k))
         return None
 
 
